@@ -529,7 +529,7 @@ def build_hists(ctx, rng, harder=False):
         for e1 in H.ENDS:
             hs.append(H.gen_history(rng, role, ends=[e1] + [rng.choice(H.ENDS) for _ in range(3)],
                                     first_tail=rng.choice(["frame-prefix", "frame-head"])))
-    for _ in range(ctx.n(16, 150) * (2 if harder else 1)):
+    for _ in range(ctx.n(12, 150) * (2 if harder else 1)):
         hs.append(H.gen_history(rng))
     return [{"hist": h, "cuts": H.chunkings(rng, h, ctx.n(2, 4))} for h in hs]
 
@@ -551,6 +551,9 @@ def _work_hist(args):
         key = "%s/%s" % (hist["role"], ">".join(d["end"] for d in hist["days"][:-1]) + ">")
         stats[key] = stats.get(key, 0) + 1
         for k2, v in (("runs_with_refused_call_between_reads", any(H.calls_of(c) for c in cl)),
+                      ("runs_with_heartbeat_task_probing_between_reads", any("clock+29.5" in a for c in cl for a in sum(H.calls_of(c).values(), []))),
+                      ("runs_with_accepted_call_between_reads", any(a in ("send-app", "send-test-req") for c in cl for a in sum(H.calls_of(c).values(), []))),
+                      ("runs_with_logon_numbered_too_high", any("too-high" in d.get("tail_kind", "") for d in hist["days"])),
                       ("runs_with_inbound_journal_fault", any(d.get("jfault") for d in hist["days"]))):
             stats[k2] = stats.get(k2, 0) + bool(v)
     model = C.Driver().batch(lines) if with_model and lines else [None] * len(lines)
@@ -735,8 +738,12 @@ def correspondence(ctx):
         "disconnect, trailing bytes none / partial marker / frame head / frame prefix / junk / whole frame, chunkings canonical / one "
         "read / last frame+tail in one read / cut inside the last frame / random with 1-byte reads around the last frame's end; per "
         "connection the deliveries are compared with the model run from the empty buffer up to the terminating Logout; in half of the "
-        "random chunkings a second coroutine makes a public call that must be REFUSED (connect() on the live object, send of "
-        "unencodable text) while the read task is parked between two reads; a quarter of the non-Logout connections have the "
+        "random chunkings something else happens while the read task is parked between two reads: a public call that must be "
+        "REFUSED (connect() on the live object, send of unencodable text), an ACCEPTED one (send_msg of an application message, "
+        "send_test_req), or the connection's OTHER task: the virtual clock the connection module sees moves by 3 s (no probe) or "
+        "29.5 s (HeartBtInt-1 passed: the real heartbeat_timer_task sends its TestRequest) and the task gets several iterations; "
+        "one chunking per history puts the probing tick exactly at a read boundary inside the last frame of one connection; 35 % "
+        "of the last connections start with a Logon numbered too high followed by more frames in the same read; a quarter of the non-Logout connections have the "
         "inbound journal write of one frame fail once (sqlite3.OperationalError) with a fault-free frame in a later read; tails "
         "include prefixes of frames of 150–2500 bytes. ONE OBJECT (c03_obj.py), reader level: (a) processing raises for 1–2 frames "
         "of a stream (tag 9999) cut anywhere – read per frame, one read, 1-byte reads, the faulty frame together with the head of "
